@@ -151,6 +151,10 @@ RedeemTxs ==
        r \in {"a1", "a3"}, k \in CheckIds, pk \in BOOLEAN}
 MutTxs ==
    {MkTx("Send", "a1", <<"a1">>, FALSE, "next", [coin |-> Base, to |-> "a2", value |-> 1], m) : m \in {"flip-data", "flip-sig", "high-s"}}
+\* a payload and a gas price above one: the commission is gas price x (type price + bytes x byte price), also when the transaction fails
+\* (a3 owns one unit: the failure fee is capped at its balance; a1 can pay the failure fee of 8 only before it has spent anything)
+PricedTxs ==
+   {[MkTx("Send", a, <<a>>, FALSE, "next", [coin |-> Base, to |-> "a2", value |-> v], "") EXCEPT !.gasPrice = 2, !.bytes = 3] : a \in {"a1", "a3"}, v \in {1, 3}}
 WrongSignerTxs ==   \* a3 signs a transaction that names a1's money: the signer is the sender, so a3 pays
    {}
 
@@ -160,13 +164,15 @@ TxMenu == (IF "Send" \in Menu THEN SendTxs ELSE {})
      \cup (IF "Lock" \in Menu THEN LockTxs ELSE {})
      \cup (IF "Check" \in Menu THEN RedeemTxs ELSE {})
      \cup (IF "Mutate" \in Menu THEN MutTxs ELSE {})
+     \cup (IF "Priced" \in Menu THEN PricedTxs ELSE {})
 
 Repeats == IF "Redeliver" \in Menu
            THEN {[sent[i] EXCEPT !.id = NextId, !.dupOf = IF sent[i].dupOf = "" THEN sent[i].id ELSE sent[i].dupOf] : i \in 1..Len(sent)}
            ELSE {}
 
 TxStep(tx) == [op |-> "tx", id |-> tx.id, type |-> tx.type, from |-> tx.from, sign |-> tx.signedBy, multi |-> tx.multi,
-               nonce |-> tx.pol, args |-> tx.args, mut |-> tx.mut, repeat |-> tx.dupOf]
+               nonce |-> tx.pol, args |-> tx.args, mut |-> tx.mut, repeat |-> tx.dupOf,
+               gasPrice |-> (IF tx.gasPrice = 1 THEN 0 ELSE tx.gasPrice), payload |-> tx.bytes]
 
 Deliver(tx) ==
    /\ phase = "begun" /\ cnt.inBlock < MaxTxPerBlock /\ cnt.total < MaxTxTotal
